@@ -79,19 +79,20 @@ TABLE = {
         ("Proofs/VarintP.v", ["varint_roundtrip", "varint_bytes_len", "get_varint_sound"]),
         ("Proofs/PacketP.v", ["packet_roundtrip", "from_bytes_wf", "reencode_len", "to_bytes_total"]),
         ("Proofs/AcksP.v", ["feed_exact", "feed_sound", "add_pending_ack_exact", "feed_wf"]),
-        ("Proofs/NPacketP.v", ["npacket_roundtrip", "challenge_roundtrip"]),
+        ("Proofs/NPacketP.v", ["npacket_roundtrip", "prefix_roundtrip", "challenge_roundtrip"]),
         ("Proofs/TokenP.v", ["private_roundtrip", "token_roundtrip", "token_read_write_read"]),
     ], ""),
     "C04": ("Netcode payloads: only authentic ones surface, each at most once", [
-        ("Proofs/ReplayP.v", ["replay_at_most_once", "replay_fresh_accepted", "replay_inv_init", "replay_inv_step"]),
-        ("Proofs/NPacketP.v", ["decode_advances_only_after_open", "decode_payload_authentic"]),
+        ("Proofs/ReplayP.v", ["replay_at_most_once", "replay_fresh_accepted", "replay_old_rejected", "replay_inv_init", "replay_inv_step", "accepted_stays_received"]),
+        ("Proofs/NPacketP.v", ["decode_sound", "decode_duplicate", "decode_replay_rejected", "decode_keeps_replay_unless_opened"]),
+        ("Proofs/NClientP.v", ["client_payload_only_connected"]),
         ("Proofs/NServerP.v", ["payload_only_from_connected"]),
     ], ""),
     "C05": ("Only a valid, unexpired, untampered token from its own address connects", [
         ("Proofs/NServerP.v", ["connected_implies_valid_request", "request_rejects", "response_needs_matching_challenge", "token_bound_to_address"]),
     ], ""),
     "C07": ("renetcode survives hostile datagrams and tokens; no state change", [
-        ("Proofs/NPacketP.v", ["decode_no_panic", "decode_unopened_keeps_replay"]),
+        ("Proofs/NPacketP.v", ["decode_no_panic", "decode_unopened_keeps_replay", "decode_duplicate"]),
         ("Proofs/TokenP.v", ["token_read_no_panic", "private_decode_no_panic"]),
         ("Proofs/NServerP.v", ["process_packet_no_panic", "inauthentic_is_noop"]),
         ("Proofs/NClientP.v", ["client_no_panic", "client_inauthentic_is_noop"]),
@@ -101,7 +102,8 @@ TABLE = {
     ], ""),
     "C17": ("AEAD discipline: tamper-evident, no nonce reuse", [
         ("Proofs/AeadP.v", ["aead_open_iff", "xaead_open_iff", "aead_seal_inj"]),
-        ("Proofs/NPacketP.v", ["aead_input_injective"]),
+        ("Proofs/NPacketP.v", ["decode_sound", "dgram_parts_injective", "aead_input_injective"]),
+        ("Proofs/TokenP.v", ["private_decode_sound", "token_aad_inj"]),
         ("Proofs/NServerP.v", ["server_nonces_disjoint"]),
         ("Proofs/NClientP.v", ["client_sequence_increases"]),
     ], ""),
@@ -137,6 +139,9 @@ def statement_of(path, lemma):
     if not m:
         return checked_statement(path, lemma)
     body = m.group(1).strip()
+    if not body.startswith(":"):
+        # binders before the colon: take the closed statement from Coq instead
+        return checked_statement(path, lemma)
     return body
 
 
